@@ -28,9 +28,13 @@ func (o SortOrder) Fields() (fields []string) {
 	return fields
 }
 
+// Copy returns a deep copy: reversing (or otherwise changing) the copy
+// must not affect the original sort order.
 func (o SortOrder) Copy() SortOrder {
 	rv := make(SortOrder, len(o))
-	copy(rv, o)
+	for i, s := range o {
+		rv[i] = s.copy()
+	}
 	return rv
 }
 
@@ -91,6 +95,24 @@ func SortBy(source TextValueSource) *Sort {
 		first: &rv.missingFirst,
 	})
 
+	return rv
+}
+
+func (s *Sort) copy() *Sort {
+	rv := &Sort{
+		source:       s.source,
+		desc:         s.desc,
+		missingFirst: s.missingFirst,
+	}
+	// the missing value replacement refers to the direction of its Sort
+	if m, ok := s.source.(*MissingTextValueSource); ok {
+		if _, ok := m.replacement.(*sortFirstLast); ok {
+			rv.source = MissingTextValue(m.primary, &sortFirstLast{
+				desc:  &rv.desc,
+				first: &rv.missingFirst,
+			})
+		}
+	}
 	return rv
 }
 
